@@ -458,6 +458,7 @@ fn main() {
         "builder-history" => cmd_builder_history(&args),
         "resolver" => cmd_resolver(&args),
         "convert" => cmd_convert(&args),
+        "determinism" => cmd_determinism(&args),
         _ => {
             eprintln!("unknown command");
             exit(2)
@@ -1092,3 +1093,79 @@ fn cmd_convert(args: &[String]) {
 }
 
 
+
+
+// ---------------------------------------------------------------------------------------------
+// C19: bounded stand-in.  Determinism relates two executions; the functions involved (simple(),
+// generate(): string emission through codegen / format! / itertools) are outside both verifiers.
+// Every definition history within the bound is replayed TWICE in this process (fresh builders) and
+// its offsets and generated text (three fragment selections) must be identical; the digest over all
+// of them is printed so that the caller can compare two separately started processes.
+
+fn fnv(h: &mut u64, bytes: &[u8]) {
+    for b in bytes {
+        *h ^= *b as u64;
+        *h = h.wrapping_mul(0x100000001b3);
+    }
+}
+
+fn generate_all(def: &RecordDefinition<NativeDatumDetails>) -> Vec<String> {
+    use truc::generator::{config::GeneratorConfig, fragment::{clone::CloneImplGenerator, serde::SerdeImplGenerator, FragmentGenerator}, generate};
+    vec![
+        generate(def, &GeneratorConfig::default()),
+        generate(def, &GeneratorConfig::default_with_custom_generators([Box::new(CloneImplGenerator) as Box<dyn FragmentGenerator>])),
+        generate(def, &GeneratorConfig::default_with_custom_generators([Box::new(CloneImplGenerator) as Box<dyn FragmentGenerator>, Box::new(SerdeImplGenerator) as Box<dyn FragmentGenerator>])),
+    ]
+}
+
+fn cmd_determinism(args: &[String]) {
+    let maxlen: usize = arg(args, "--max-len").map_or(5, |s| s.parse().unwrap());
+    let mut alphabet = Vec::new();
+    for n in 0..NAMES.len() { for s in 0..CSHAPES.len() { alphabet.push(SrcReq::Add(n, s)); } }
+    for d in 0..3 { alphabet.push(SrcReq::Remove(d)); }
+    alphabet.push(SrcReq::Close(0));
+    alphabet.push(SrcReq::Close(1));
+    let mut digest: u64 = 0xcbf29ce484222325;
+    let mut histories = 0u64;
+    let mut texts = 0u64;
+    let mut violation: Option<Value> = None;
+    let mut sample: Option<Value> = None;
+    let mut frontier: Vec<Vec<SrcReq>> = vec![vec![]];
+    'outer: for _len in 1..=maxlen {
+        let mut next = Vec::new();
+        for h in &frontier {
+            for r in &alphabet {
+                if let (Some(SrcReq::Close(_)), SrcReq::Close(_)) = (h.last(), r) { continue; }
+                let mut h2 = h.clone();
+                h2.push(r.clone());
+                if let SrcReq::Close(_) = r {
+                    let (a, b) = (build_source(&h2), build_source(&h2));
+                    if let (Some(a), Some(b)) = (a, b) {
+                        histories += 1;
+                        let oa: Vec<usize> = a.datum_definitions().map(|d| d.details().offset()).collect();
+                        let ob: Vec<usize> = b.datum_definitions().map(|d| d.details().offset()).collect();
+                        let (ta, tb) = (generate_all(&a), generate_all(&b));
+                        texts += ta.len() as u64;
+                        if oa != ob || ta != tb || a.to_string() != b.to_string() {
+                            violation = Some(json!({"history": h2.iter().map(src_to_json).collect::<Vec<_>>(), "clauses": ["C19: the same request sequence replayed twice in one process gives different offsets or different generated text"]}));
+                            break 'outer;
+                        }
+                        for o in &oa { fnv(&mut digest, &o.to_le_bytes()); }
+                        for t in &ta { fnv(&mut digest, t.as_bytes()); }
+                        if sample.is_none() && a.variants().count() == 2 {
+                            sample = Some(json!({"history": h2.iter().map(src_to_json).collect::<Vec<_>>(), "generated_bytes": ta.iter().map(|t| t.len()).collect::<Vec<_>>()}));
+                        }
+                    } else {
+                        continue;
+                    }
+                }
+                let valid = { let mut probe = h2.clone(); probe.push(SrcReq::Close(0)); build_source(&probe).is_some() || matches!(r, SrcReq::Close(_)) };
+                if valid { next.push(h2); }
+            }
+        }
+        frontier = next;
+    }
+    let res = json!({"histories": histories, "texts": texts, "max_len": maxlen, "digest": format!("{:016x}", digest), "violation": violation, "sample": sample});
+    println!("{}", serde_json::to_string_pretty(&res).unwrap());
+    exit(if violation.is_some() { 1 } else { 0 });
+}
